@@ -88,9 +88,17 @@ func configClass(c lockgen.Config) string {
 // one direct evaluation of nut11.VerifyP2PKLockedProof against the evaluator
 func propDirect(t *rapid.T) {
 	c := lockgen.GenConfig(t, "P2PK")
+	focus := rapid.IntRange(0, 7).Draw(t, "threshold_focus") == 0
+	if focus {
+		c = lockgen.FocusThreshold(t, c)
+		rec.Class("direct_threshold_focus")
+	}
 	secret := c.Secret()
 	elems, _ := lockgen.GenWitnessElems(t, c, candidateKeys, "sig")
 	shape := rapid.SampledFrom([]string{"object", "object", "object", "object", "object", "none", "empty_object", "garbage", "not_object", "null_sigs"}).Draw(t, "witness_shape")
+	if focus {
+		shape = "object"
+	}
 	sigs := lockgen.Render(elems, []byte(secret))
 	witness := lockgen.WitnessJSON(shape, sigs, "", false)
 	proof := cashu.Proof{Amount: 1, Id: "00c12c12c12c12c1", Secret: secret, C: "02" + strings.Repeat("11", 32), Witness: witness}
